@@ -2,9 +2,9 @@
 from __future__ import annotations
 
 import ast
-from typing import Callable, Dict, Iterable, List, Optional, Sequence, Set, Tuple
+from typing import Callable, Dict, Iterable, List, Optional, Tuple
 
-from sa.astx import NotConst, _lin, const_eval, dotted, src, walk_local
+from sa.astx import _lin, dotted, src, walk_local
 from sa.source import AnalysisError
 
 
